@@ -73,6 +73,8 @@ u8* _ZNSt23_Rb_tree_const_iteratorISt4pairIKNSt7__cxx1112basic_stringIcSt11char_
 void _ZSt9make_pairINSt7__cxx1112basic_stringIcSt11char_traitsIcESaIcEEES5_ESt4pairINSt25__strip_reference_wrapperINSt5decayIT_E4typeEE6__typeENS7_INS8_IT0_E4typeEE6__typeEEOS9_OSE_(u8* ret, u8* a, u8* b) {
   gpair_t* p = (gpair_t*)ret; p->k = *GS(a); p->v = *GS(b); GS(a)->len = 0; GS(b)->len = 0; }
 void _ZNSt4pairINSt7__cxx1112basic_stringIcSt11char_traitsIcESaIcEEES5_ED2Ev(u8* p) { (void)p; }
+void _ZNSt4pairINSt7__cxx1112basic_stringIcSt11char_traitsIcESaIcEEES5_EC2IS5_S5_Lb1EEEOT_OT0_(u8* pr, u8* a, u8* b) { gpair_t* p = (gpair_t*)pr; p->k = *GS(a); p->v = *GS(b); GS(a)->len = 0; GS(b)->len = 0; }   /* pair(string&&, string&&) */
+void _ZNSt4pairINSt7__cxx1112basic_stringIcSt11char_traitsIcESaIcEEES5_EC2IRS5_S9_Lb1EEEOT_OT0_(u8* pr, u8* a, u8* b) { gpair_t* p = (gpair_t*)pr; p->k = *GS(a); p->v = *GS(b); }
 agg16_8 _ZNSt3mapINSt7__cxx1112basic_stringIcSt11char_traitsIcESaIcEEES5_St4lessIS5_ESaISt4pairIKS5_S5_EEE6insertIS8_IS5_S5_EEENSt9enable_ifIXsr16is_constructibleISA_T_EE5valueES8_ISt17_Rb_tree_iteratorISA_EbEE4typeEOSG_(u8* m, u8* pr) { agg16_8 r = { { 0 } }; gpair_t* p = (gpair_t*)pr; gmap_insert(GM(m), &p->k, &p->v); return r; }
 #endif
 /* ======================================================================================================================
